@@ -51,11 +51,12 @@ CHECKS = {
         technique="Coq proofs (pad/sub/plural specs; ladder regenerated from parserfns.py equals the documented one) + value correspondence against Coq reference models",
         text="Theorems: c18_ladder_is_documented (the #expr precedence ladder extracted from expr_fn on this run equals the "
              "documented ladder, all binary levels left-associative), c18_padleft/c18_padright/c18_pad_cyclic (exact result and "
-             "length for all values, counts and pad strings), c18_sub_* and c18_plural_selects_by_one. Every listed string "
+             "length for all values, counts and pad strings), c18_sub_*, c18_plural_selects_by_one, and c18_formatnum_roundtrip(_shipped) + "
+             "c18_all_shipped_locales_ok (formatnum|R inverts formatnum for every numeral of any length in every locale "
+             "of the regenerated Gen/GenLocales.v). Every listed string "
              "function, plural, #expr on integer ASTs (minimal vs full parentheses, random spacing/case, compared with the Coq "
              "reference evaluator) and formatnum / formatnum|R on every shipped locale are compared with the Coq models and "
-             "with references written from the documentation. PARTIAL: parser correctness of the ladder for all ASTs and the "
-             "formatnum round trip for all numerals are checked by correspondence, not yet proved.",
+             "with references written from the documentation. PARTIAL: parser correctness of the ladder for all ASTs is checked by correspondence, not yet proved.",
         note=TRUST + "translators ladder.py/locales.py trusted (fail-closed); floats, urllib quoting, non-ASCII case mapping "
              "not modelled; negative operands of mod and inexact division are outside the reference evaluator.",
         ref="DESIGN.md section 4 C18"),
